@@ -24,7 +24,7 @@ type Opts struct {
 var AllFeatures = []string{
 	"async", "err", "multi", "bind", "struct", "value", "sets", "lit", "ext", "ctxparam",
 	"composite", "basic", "args", "unneeded", "multi-inj", "multi-file", "dupparam",
-	"generic", "variadic", "variadic-functype", "want-unsupplied", "kalias", "extalias", "value-and-pointer", "rewrap", "struct-both-forms", "alias-basic", "ctx-provider", "implements-error", "adv-pkg-shadowed-by-later-decl", "value-literal", "multi-var-sets", "ext-method-value", "err-alias", "local-provider-ext-result", "arg-ext-type", "arg-hidden-ext", "set-ref-paren", "set-decl-paren", "set-alias-var", "elem-paren", "elem-hoisted-var", "inject-spelling", "prov-func-var",
+	"generic", "variadic", "variadic-functype", "want-unsupplied", "kalias", "extalias", "value-and-pointer", "rewrap", "struct-both-forms", "alias-basic", "ctx-provider", "implements-error", "adv-pkg-shadowed-by-later-decl", "value-literal", "multi-var-sets", "ext-method-value", "err-alias", "nested-struct-expansion", "local-provider-ext-result", "arg-ext-type", "arg-hidden-ext", "set-ref-paren", "set-decl-paren", "set-alias-var", "elem-paren", "elem-hoisted-var", "inject-spelling", "prov-func-var",
 	"async-struct", "ptrrecv", "aiface", "embedded",
 }
 
@@ -919,6 +919,18 @@ func (g *gen) genUnit(i int) {
 	}
 	// struct expansion of the first result
 	if st := g.c.StructOf(p.Results[0]); st != nil && len(st.Fields) > 0 && g.want("struct", "expand", 75) {
+		// nested expansion: one more field holds a struct that is expanded as well; its source is
+		// that field, and the two Struct declarations may be listed in either order
+		var inner TypeID
+		if st.Pkg == "" && !st.NoHash && g.want("nested-struct-expansion", "nestedexp", 22) {
+			is := g.newStruct("", true)
+			inner = is
+			if rapid.Bool().Draw(g.rt, "nestedptr") {
+				inner = g.addType(Type{Kind: KPtr, Elem: is})
+			}
+			g.c.Types[int(st.ID)].Fields = append(g.c.Types[int(st.ID)].Fields, Field{Name: "FN", Type: inner})
+			st = g.c.StructOf(p.Results[0])
+		}
 		se := Elem{Kind: "struct", Struct: p.Results[0]}
 		if g.want("async-struct", "asyncstruct", 15) {
 			se.Async = g.drawAsync("asyncs")
@@ -932,6 +944,12 @@ func (g *gen) genUnit(i int) {
 				}
 			}
 			g.bundle[f.Type] = append(g.bundle[f.Type], p.Results[0])
+		}
+		if inner != 0 {
+			g.units = append(g.units, Elem{Kind: "struct", Struct: inner})
+			for _, f := range g.c.StructOf(inner).Fields {
+				g.supply(f.Type, len(g.units)-1)
+			}
 		}
 	}
 }
